@@ -299,3 +299,57 @@ TARGETS += [
               '(match py_is_valid_mpg_version cur {_x} with VRaise => None | VTrue => Some true | VFalse => Some false end)',
               'opt:ValueError:bool')]),
 ]
+
+# ---------------------------------------------------------------------------------------------- C14 parseREDItools
+# (8) parser/REDItoolsParser.py REDItoolsRecord.get_valid_subs (threshold chain)          vs Vep.get_valid_subs
+#     Trusted: the row is the model's `redi` record (base_count in the order A C G T, all_subs as (ref, alt) pairs,
+#     g_coverage_q an int or None); base_count_order[alt] is Vep.base_order (None = KeyError); the float test
+#     `read_count / total_count < min_frequency_alt` is the exact rational comparison with min_frequency_alt = fnum/fden
+#     (fden > 0) and raises ZeroDivisionError for total_count = 0 -- the C14 generator keeps thresholds off float boundaries.
+TARGETS.append(
+    dict(out='Py_REDItoolsParser', file='moPepGen/parser/REDItoolsParser.py', cls='REDItoolsRecord', imports=['Model.Vep'],
+         func='get_valid_subs', coq_name='py_get_valid_subs',
+         args=[('th', 'thr'), ('r', 'redi')], types={'sub': '(Z * Z)'},
+         params={'min_coverage_alt': ('(th_alt th)', 'Z'), 'min_frequency_alt': (None, 'opaque'),
+                 'min_coverage_rna': ('(th_rna th)', 'Z'), 'min_coverage_dna': ('(th_dna th)', 'Z')},
+         var_types={'valid_subs': 'list sub'},
+         ret_ty='list sub', res_ty='option (list (Z * Z))', ok='(Some {})', stub='None',
+         errors={'KeyError': 'None', 'IndexError': 'None', 'ZeroDivisionError': 'None', 'TypeError': 'None'}, raises=[],
+         patterns=[('self.base_count', {}, '(r_counts r)', 'list Z'),
+                   ('self.all_subs', {}, '(r_subs r)', 'list sub'),
+                   ('self.g_coverage_q', {}, '(r_gcov r)', 'optZ'),
+                   ('_s[1]', {'_s': 'sub'}, '(snd {_s})', 'Z'),
+                   ('self.base_count_order[_a]', {'_a': 'Z'}, '(base_order {_a})', 'opt:KeyError:nat'),
+                   ('_a / _b < min_frequency_alt', {'_a': 'Z', '_b': 'Z'},
+                    '(if {_b} =? 0 then None else Some ({_a} * th_fden th <? th_fnum th * {_b}))', 'opt:ZeroDivisionError:bool')],
+         stmt_patterns=[('valid_subs.append(_x)', {'_x': 'sub'}, 'valid_subs', '({cur} ++ [{_x}])')]))
+
+# ---------------------------------------------------------------------------------------------- C19 filterFasta
+# (9) aa/VariantPeptidePool.py VariantPeptidePool.filter: the per-entry decision loop            vs Filter.keep_list
+#     Only `keep = []` .. `for entry in peptide_entries:` is translated; the observable is the list `keep`.
+#     Trusted: an entry is the model's `entry` record (get_transcript_ids / is_fusion / is_circ_rna / is_splice_altering);
+#     `x in coding_transcripts` is membership in o_coding; `all(exprs[tx] >= cutoff for tx in ids)` is Filter.all_expr
+#     (KeyError, TypeError for a missing cutoff, short-circuit) on the table rows, TypeError when exprs is None.
+TARGETS.append(
+    dict(out='Py_VariantPeptidePool', file='moPepGen/aa/VariantPeptidePool.py', cls='VariantPeptidePool',
+         func='filter', coq_name='py_keep_list',
+         imports=['Model.Rule', 'Model.Digest', 'Model.Header', 'Model.Filter'],
+         args=[('o', 'opts'), ('d', 'bool'), ('es', 'list entry')],
+         types={'rows': '(list (str * Z))', 'coding': '(list str)'},
+         params={'exprs': ('(o_exprs o)', 'opt rows'), 'cutoff': (None, 'opaque'), 'coding_transcripts': (None, 'coding'),
+                 'keep_all_noncoding': ('(o_kan o)', 'bool'), 'keep_all_coding': ('(o_kac o)', 'bool'),
+                 'enzyme': (None, 'opaque'), 'miscleavage_range': (None, 'opaque'), 'denylist': (None, 'opaque'),
+                 'keep_canonical': ('(o_keep_canon o)', 'bool')},
+         pre_env={'peptide_entries': ('es', 'list entry'), 'is_in_denylist': ('d', 'bool')},
+         slice=('keep = []', 'for entry in peptide_entries:'), slice_pre=[], slice_post=['return keep'],
+         var_types={'keep': 'list entry'},
+         ret_ty='list entry', res_ty='res (list entry)', ok='(Ok {})', stub='Err EFuel',
+         errors={'IndexError': '(Err EIndex)', 'UnboundLocalError': '(Err EFuel)'}, raises=[],
+         patterns=[('_e.get_transcript_ids()', {'_e': 'entry'}, '(e_txs {_e})', 'list str'),
+                   ('_e.is_fusion()', {'_e': 'entry'}, '(e_fusion {_e})', 'bool'),
+                   ('_e.is_circ_rna()', {'_e': 'entry'}, '(e_circ {_e})', 'bool'),
+                   ('_e.is_splice_altering()', {'_e': 'entry'}, '(e_splice {_e})', 'bool'),
+                   ('_x in coding_transcripts', {'_x': 'str'}, '(mem_seq {_x} (o_coding o))', 'bool'),
+                   ('all((exprs[tx] >= cutoff for tx in _t))', {'_t': 'list str'},
+                    '(match o_exprs o with Some rows__ => all_expr rows__ (o_cutoff o) {_t} | None => Err EType end)', 'res bool')],
+         stmt_patterns=[('keep.append(_x)', {'_x': 'entry'}, 'keep', '({cur} ++ [{_x}])')]))
